@@ -111,11 +111,78 @@ def x_c12(run):
     run.say(f"C12: {len(cases)} cases through both builds, {n} differences")
 
 
+# ---- frame layer ---------------------------------------------------------------------------
+
+HANGS = re.compile(r"HANG|PANIC|CRASH|DRIVER-DIED|BADCOUNT")
+
+def notes_of(il):
+    parts = il.split(" ; ")
+    return parts[-1] if len(parts) >= 3 else ""
+
+def j_notes(pattern, what, expected):
+    rx = re.compile(pattern)
+    def j(c, il, orc):
+        out = []
+        m = rx.search(notes_of(il)) or HANGS.search(il)
+        if m:
+            out.append((f"{what}: {m.group(0)} in `{il[-200:]}`", expected))
+        return out
+    return j
+
+def j_and(*js):
+    def j(c, il, orc):
+        out = []
+        for x in js: out += x(c, il, orc)
+        return out
+    return j
+
+def j_orc(*kinds):
+    return lambda c, il, orc: oracle_fail(orc, kinds)
+
+def kview_w(line):
+    return " ; ".join(x.strip() for x in line.split(" ; ")[:2])
+
+def kview_r(line):
+    return line.split(" ; ")[0].strip()
+
+def kview_r_seq(line):
+    return " ; ".join(x.strip() for x in line.split(" ; ")[:2])
+
+def nontrivial_sess(c, il):
+    return "/ok" in il or " ok" in il or il.startswith("ok")
+
+def FW(fam, **kw):
+    return dict(dict(family=fam, variant="asm", kview=kview_w, nontrivial=nontrivial_sess), **kw)
+
+def FR(fam, **kw):
+    return dict(dict(family=fam, variant="asm", kview=kview_r, nontrivial=nontrivial_sess), **kw)
+
+j_c02w = j_notes(r"ROUNDTRIP-FAIL\S*", "frame round trip failed", "Reader restores the input, clean EOF")
+j_c02r = j_notes(r"WRONG-CONTENT", "Reader did not deliver exactly the content", "content then io.EOF")
+j_c05 = j_and(j_orc("accept"), j_notes(r"$^", "", ""))
+j_c06 = j_notes(r"TRUNC-ACCEPTED|NOT-PREFIX", "truncated frame presented as complete / wrong bytes", "error other than io.EOF, delivered bytes a prefix")
+j_c07 = j_and(j_notes(r"EXPECTED-\S+|ALLOC-EXCESS\S*", "Reader misbehaves on hostile input", "terminates; invalid frame / skip exactly 16 magics; bounded allocation"), j_orc("accept"))
+j_c09 = j_and(j_orc("frame"), j_notes(r"$^", "", ""))
+j_c15w = j_notes(r"$^", "", "")
+j_c15r = j_notes(r"TRUNC-ACCEPTED|NOT-PREFIX|WRONG-CONTENT|EXPECTED-\S+", "source failure / fragmentation mishandled", "the injected error, prefix delivered; fragmentation irrelevant")
+j_c16 = j_c02r
+j_c17w = j_notes(r"SECOND-CLOSE-EMITS|FLUSH-PREFIX-FAIL|WRITE-AFTER-CLOSE-ACCEPTED|ROUNDTRIP-FAIL\S*", "Writer lifecycle broken", "reference model")
+j_c17r = j_notes(r"READ-AFTER-EOF-CONSUMES|WRONG-CONTENT", "Reader lifecycle broken", "reference model")
+
+
 def T(prop, *names, kind="full"):
     return [dict(name=f"Lz4V.Props.{prop}.{n}", kind=kind) for n in names]
 
 
 PROPS = {
+    "C02": dict(runs=[FW("fw", judge=j_c02w), FR("fr", judge=j_c02r)], theorems=[]),
+    "C05": dict(runs=[FR("frmut", judge=j_c05), FR("fr", judge=j_c05)], theorems=[]),
+    "C06": dict(runs=[FR("frtrunc", judge=j_c06)], theorems=[]),
+    "C07": dict(runs=[FR("frhost", judge=j_c07), FR("frmut", judge=j_c07)], theorems=[]),
+    "C09": dict(runs=[FW("fw", judge=j_c09)], theorems=[]),
+    "C15": dict(runs=[FW("fwfail", judge=j_c15w), FR("frfail", judge=j_c15r)], theorems=[]),
+    "C16": dict(runs=[FR("fr", judge=j_c16)], theorems=[]),
+    "C17": dict(runs=[FW("fwlife", judge=j_c17w), FR("fr", judge=j_c17r)], theorems=[]),
     "C01": dict(runs=[dict(CMP, judge=j_c01)], theorems=[]),
     "C03": dict(runs=[dict(DEC_ASM, judge=j_c03), dict(DEC_GO, judge=j_c03)], theorems=[]),
     "C04": dict(runs=[dict(DEC_ASM, judge=j_c04), dict(DEC_GO, judge=j_c04)], theorems=[]),
